@@ -240,7 +240,7 @@ def forward(f, init, xfer_elem, xfer_edge, join, widen=None, widen_after=3, max_
             else:
                 new = join(old, s2)
                 if widen is not None and visits.get(succ, 0) >= widen_after and pos.get(succ, 0) <= pos.get(bid, 0):
-                    new = widen(old, new)
+                    new = widen(old, new, succ)
             if old is None or new != old:
                 IN[succ] = new
                 work.add(succ)
